@@ -96,6 +96,12 @@ def check_g2(pid, tier):
             continue
         obs.extend(r["obligations"])
         trusted.update(r.get("trusted", ()))
+    # S12: the options are read through get_config(): it sees every option the class's Config declares (plain Configs, plain parents)
+    from . import s12config
+
+    o_, c_ = s12config.obligations(pid)
+    obs += o_
+    crashes += c_
     return runner.finish(
         pid, tier, obs, t0,
         technique="VCs from the harvested generated to_dict (pysym, all instances and keyword flags symbolic) against PROJECT(options, plain), z3; exhaustive option lattice",
